@@ -2,6 +2,7 @@ package g_shm
 
 import (
 	"bytes"
+	"context"
 	"encoding/binary"
 	"encoding/json"
 	"fmt"
@@ -33,6 +34,275 @@ type c36Call struct {
 	Advertise bool         `json:"advertise,omitempty"` // request carries shm_segment_name/size
 	ReqPtr    bool         `json:"req_ptr,omitempty"`   // client sends the request batch as a pointer (when a segment is known to the server)
 	InPtr     []bool       `json:"in_ptr,omitempty"`    // per exchange input: send as a pointer (only on calls that engaged shm)
+	// Shape, when set, makes this a call of the check's own dynamic producer
+	// "s_shape", whose output schema is described by the script (Spec then only
+	// carries kind, id, options and tick count).
+	Shape *c36ShapeScript `json:"shape,omitempty"`
+}
+
+// ---- a producer whose output schema is chosen per call ----
+//
+// The scripted service's methods share two output schemas. A connection's
+// segment, however, is one object for the whole session, so what it carries
+// from one call to the next matters exactly when calls differ a little: the
+// family below is one base schema and variants that differ from it in a single
+// attribute (a name, nullability, integer width, field / schema / element
+// metadata, the list element's or struct child's name, the fixed width).
+
+type c36Shape struct {
+	Name         string      `json:"name"`
+	Wide         bool        `json:"wide,omitempty"` // first column int64, else int32
+	Nullable     bool        `json:"nullable,omitempty"`
+	FieldMeta    [][2]string `json:"field_meta,omitempty"`
+	SchemaMeta   [][2]string `json:"schema_meta,omitempty"`
+	Second       string      `json:"second,omitempty"` // "" | list | fsb | struct
+	Elem         string      `json:"elem,omitempty"`   // list element / struct child name
+	ElemNullable bool        `json:"elem_nullable,omitempty"`
+	ElemMeta     [][2]string `json:"elem_meta,omitempty"`
+	Width        int         `json:"width,omitempty"` // fixed_size_binary width
+}
+
+type c36ShapeScript struct {
+	ID    string   `json:"id"`
+	Shape c36Shape `json:"shape"`
+	Rows  []int    `json:"rows"` // one emitted batch per entry, then finish
+}
+
+func pairsMeta(kv [][2]string) arrow.Metadata {
+	var keys, vals []string
+	for _, e := range kv {
+		keys, vals = append(keys, e[0]), append(vals, e[1])
+	}
+	return arrow.NewMetadata(keys, vals)
+}
+
+func (sh c36Shape) schema() *arrow.Schema {
+	first := arrow.Field{Name: sh.Name, Type: arrow.PrimitiveTypes.Int32, Nullable: sh.Nullable, Metadata: pairsMeta(sh.FieldMeta)}
+	if sh.Wide {
+		first.Type = arrow.PrimitiveTypes.Int64
+	}
+	fields := []arrow.Field{first}
+	child := arrow.Field{Name: sh.Elem, Type: arrow.PrimitiveTypes.Int64, Nullable: sh.ElemNullable, Metadata: pairsMeta(sh.ElemMeta)}
+	switch sh.Second {
+	case "list":
+		fields = append(fields, arrow.Field{Name: "second", Type: arrow.ListOfField(child)})
+	case "struct":
+		fields = append(fields, arrow.Field{Name: "second", Type: arrow.StructOf(child)})
+	case "fsb":
+		fields = append(fields, arrow.Field{Name: "second", Type: &arrow.FixedSizeBinaryType{ByteWidth: sh.Width}})
+	}
+	if len(sh.SchemaMeta) == 0 {
+		return arrow.NewSchema(fields, nil)
+	}
+	md := pairsMeta(sh.SchemaMeta)
+	return arrow.NewSchema(fields, &md)
+}
+
+// batch builds the deterministic rows of one turn for schema (built by sh.schema()).
+func (sh c36Shape) batch(schema *arrow.Schema, base int64, rows int) arrow.RecordBatch {
+	var cols []arrow.Array
+	if sh.Wide {
+		b := array.NewInt64Builder(lib.Mem)
+		for r := 0; r < rows; r++ {
+			b.Append(base + int64(r))
+		}
+		cols = append(cols, b.NewArray())
+	} else {
+		b := array.NewInt32Builder(lib.Mem)
+		for r := 0; r < rows; r++ {
+			b.Append(int32(base) + int32(r))
+		}
+		cols = append(cols, b.NewArray())
+	}
+	switch sh.Second {
+	case "list":
+		lb := array.NewListBuilderWithField(lib.Mem, schema.Field(1).Type.(*arrow.ListType).ElemField())
+		vb := lb.ValueBuilder().(*array.Int64Builder)
+		for r := 0; r < rows; r++ {
+			lb.Append(true)
+			for j := 0; j < r%3; j++ {
+				vb.Append(base*7 + int64(r+j))
+			}
+		}
+		cols = append(cols, lb.NewArray())
+	case "struct":
+		sb := array.NewStructBuilder(lib.Mem, schema.Field(1).Type.(*arrow.StructType))
+		vb := sb.FieldBuilder(0).(*array.Int64Builder)
+		for r := 0; r < rows; r++ {
+			sb.Append(true)
+			vb.Append(base*3 + int64(r))
+		}
+		cols = append(cols, sb.NewArray())
+	case "fsb":
+		fb := array.NewFixedSizeBinaryBuilder(lib.Mem, schema.Field(1).Type.(*arrow.FixedSizeBinaryType))
+		buf := make([]byte, sh.Width)
+		for r := 0; r < rows; r++ {
+			for j := range buf {
+				buf[j] = byte((int(base) + r*31 + j*7) % 251)
+			}
+			fb.Append(buf)
+		}
+		cols = append(cols, fb.NewArray())
+	}
+	return array.NewRecordBatch(schema, cols, int64(rows))
+}
+
+type c36ShapeState struct {
+	Script c36ShapeScript
+	Pos    int
+	schema *arrow.Schema
+}
+
+func (st *c36ShapeState) Produce(_ context.Context, out *vgirpc.OutputCollector, _ *vgirpc.CallContext) error {
+	lib.Note(st.Script.ID, fmt.Sprintf("produce:%d", st.Pos))
+	if st.Pos >= len(st.Script.Rows) {
+		return out.Finish()
+	}
+	rows := st.Script.Rows[st.Pos]
+	st.Pos++
+	return out.Emit(st.Script.Shape.batch(st.schema, int64(st.Pos)*1000, rows))
+}
+
+func c36ShapeInit(_ context.Context, ctx *vgirpc.CallContext, p lib.ScriptParams) (*vgirpc.StreamResult, error) {
+	var sc c36ShapeScript
+	if err := json.Unmarshal([]byte(p.Script), &sc); err != nil {
+		panic("c36: bad shape script: " + err.Error())
+	}
+	lib.Note(sc.ID, "init:"+ctx.Method)
+	// the handler builds its output schema for the call, as handlers of
+	// parametrised streams do
+	schema := sc.Shape.schema()
+	return &vgirpc.StreamResult{OutputSchema: schema, State: &c36ShapeState{Script: sc, schema: schema}}, nil
+}
+
+func metaPool(t *rapid.T, label string) [][2]string {
+	switch rapid.IntRange(0, 3).Draw(t, label) {
+	case 0:
+		return nil
+	case 1:
+		return [][2]string{{"unit", []string{"s", "ms", "us"}[rapid.IntRange(0, 2).Draw(t, label+"unit")]}}
+	case 2:
+		return [][2]string{{"k", lib.GenString(t, label+"v")}}
+	}
+	return [][2]string{{"unit", "ns"}, {"origin", lib.GenString(t, label+"o")}}
+}
+
+func genShapeBase(t *rapid.T) c36Shape {
+	sh := c36Shape{Name: []string{"v", "value", "latency", "id"}[rapid.IntRange(0, 3).Draw(t, "shname")], Wide: rapid.Bool().Draw(t, "shwide"),
+		Nullable: rapid.Bool().Draw(t, "shnull"), FieldMeta: metaPool(t, "shfm"), SchemaMeta: metaPool(t, "shsm"),
+		Second: []string{"", "list", "fsb", "struct"}[rapid.IntRange(0, 3).Draw(t, "shsecond")]}
+	switch sh.Second {
+	case "list", "struct":
+		sh.Elem = []string{"item", "element", "x"}[rapid.IntRange(0, 2).Draw(t, "shelem")]
+		sh.ElemNullable = rapid.Bool().Draw(t, "shelemnull")
+		sh.ElemMeta = metaPool(t, "shem")
+	case "fsb":
+		sh.Width = []int{1, 4, 16, 20, 32}[rapid.IntRange(0, 4).Draw(t, "shwidth")]
+	}
+	return sh
+}
+
+// varyShape changes one attribute of sh.
+func varyShape(t *rapid.T, sh c36Shape) c36Shape {
+	differ := func(old [][2]string, label string) [][2]string {
+		for i := 0; i < 8; i++ {
+			if m := metaPool(t, label); fmt.Sprint(m) != fmt.Sprint(old) {
+				return m
+			}
+		}
+		return append(append([][2]string{}, old...), [2]string{"extra", "1"})
+	}
+	attrs := []string{"name", "wide", "nullable", "field-meta", "field-meta", "schema-meta", "schema-meta"}
+	switch sh.Second {
+	case "list", "struct":
+		attrs = append(attrs, "elem", "elem", "elem-nullable", "elem-meta")
+	case "fsb":
+		attrs = append(attrs, "width", "width")
+	}
+	switch attrs[rapid.IntRange(0, len(attrs)-1).Draw(t, "vary")] {
+	case "name":
+		sh.Name += "_2"
+	case "wide":
+		sh.Wide = !sh.Wide
+	case "nullable":
+		sh.Nullable = !sh.Nullable
+	case "field-meta":
+		sh.FieldMeta = differ(sh.FieldMeta, "vfm")
+	case "schema-meta":
+		sh.SchemaMeta = differ(sh.SchemaMeta, "vsm")
+	case "elem":
+		sh.Elem += "_2"
+	case "elem-nullable":
+		sh.ElemNullable = !sh.ElemNullable
+	case "elem-meta":
+		sh.ElemMeta = differ(sh.ElemMeta, "vem")
+	case "width":
+		w := sh.Width
+		for w == sh.Width {
+			w = []int{1, 2, 4, 8, 16, 20, 32, 64}[rapid.IntRange(0, 7).Draw(t, "vwidth")]
+		}
+		sh.Width = w
+	}
+	return sh
+}
+
+func genShapeCall(t *rapid.T, id string, sh c36Shape) c36Call {
+	sc := &c36ShapeScript{ID: id, Shape: sh}
+	n := rapid.IntRange(1, 3).Draw(t, "shturns")
+	for i := 0; i < n; i++ {
+		rows := rapid.IntRange(40, 400).Draw(t, "shrows")
+		if rapid.IntRange(0, 5).Draw(t, "shsmall") == 0 {
+			rows = rapid.IntRange(1, 8).Draw(t, "shrowsmall") // stays inline
+		}
+		sc.Rows = append(sc.Rows, rows)
+	}
+	spec := lib.CallSpec{Kind: "stream", Method: "s_shape", Stream: &lib.StreamScript{ID: id, InitOutcome: "ok"}, Ticks: n + 1, CancelAt: -1}
+	if rapid.Bool().Draw(t, "shrid") {
+		spec.Opts.RequestID = "rid-" + id
+	}
+	return c36Call{Spec: spec, Shape: sc}
+}
+
+// c36PipeBytes renders a call's request and pre-written input; spec is
+// call.Spec with the session's additions (advertisement keys).
+func c36PipeBytes(call c36Call, spec lib.CallSpec) (req, in []byte) {
+	if call.Shape == nil {
+		return spec.PipeBytes()
+	}
+	js, _ := json.Marshal(call.Shape)
+	return lib.BuildRequest(spec.Method, lib.ScriptBatch(string(js)), spec.Opts), lib.TickStream(spec.Ticks, spec.CancelAt, nil)
+}
+
+// c36StrictDiff compares what the two sessions delivered in the schema
+// attributes lib.StreamsDiff leaves out (metadata on schema / fields / children,
+// child names, fixed widths) — of every stream and of every batch in it.
+func c36StrictDiff(a, b []lib.StreamM) string {
+	for i := range a {
+		if i >= len(b) {
+			break
+		}
+		if a[i].Schema != nil && b[i].Schema != nil {
+			if d := strictSchemaDiff(a[i].Schema, b[i].Schema); d != "" {
+				return fmt.Sprintf("stream %d schema: %s", i, d)
+			}
+		}
+		for j := range a[i].Batches {
+			if j >= len(b[i].Batches) {
+				break
+			}
+			if d := strictSchemaDiff(a[i].Batches[j].Rec.Schema(), b[i].Batches[j].Rec.Schema()); d != "" {
+				return fmt.Sprintf("stream %d batch %d schema: %s", i, j, d)
+			}
+		}
+	}
+	return ""
+}
+
+func c36SessionDiff(a, b []lib.StreamM) string {
+	if d := lib.StreamsDiff(a, b, lib.KShmSource); d != "" {
+		return d
+	}
+	return c36StrictDiff(a, b)
 }
 
 type c36Case struct {
@@ -234,6 +504,36 @@ func genC36(t *rapid.T) c36Case {
 			}
 			c.Calls = append(c.Calls, call)
 		}
+		// a family of near-equal output schemas served on this one connection
+		if rapid.IntRange(0, 2).Draw(t, "shapes?") == 0 {
+			base := genShapeBase(t)
+			k := rapid.IntRange(2, 4).Draw(t, "nshapes")
+			for j := 0; j < k; j++ {
+				sh := base
+				if j > 0 && rapid.IntRange(0, 4).Draw(t, "shsame") != 0 {
+					sh = varyShape(t, base)
+					if rapid.IntRange(0, 3).Draw(t, "shtwice") == 0 {
+						sh = varyShape(t, sh)
+					}
+				}
+				call := genShapeCall(t, lib.CallID(n+j), sh)
+				switch advMode {
+				case 0:
+					call.Advertise = true
+				case 1:
+					call.Advertise = !advertised
+				default:
+					call.Advertise = rapid.IntRange(0, 3).Draw(t, "shadv") != 0
+				}
+				advertised = advertised || call.Advertise
+				call.ReqPtr = rapid.IntRange(0, 3).Draw(t, "shreqptr") == 0
+				pos := rapid.IntRange(0, len(c.Calls)).Draw(t, "shpos")
+				c.Calls = append(c.Calls[:pos], append([]c36Call{call}, c.Calls[pos:]...)...)
+			}
+			if c.SegData < 200_000 && rapid.IntRange(0, 3).Draw(t, "shroomy") != 0 {
+				c.SegData = rapid.IntRange(200_000, 1<<20).Draw(t, "shseg")
+			}
+		}
 		return c
 	}
 	// rogue modes: a few ordinary calls, then the rogue call
@@ -313,6 +613,7 @@ func c36Server() *vgirpc.Server {
 	srv := vgirpc.NewServer()
 	srv.SetServerID("srv-1")
 	lib.RegisterScripted(srv)
+	vgirpc.DynamicStreamWithHeader(srv, "s_shape", lib.HdrSchema, c36ShapeInit)
 	return srv
 }
 
@@ -432,7 +733,7 @@ func runC36(c c36Case) (out lib.Outcome) {
 	lib.ResetEvents()
 	var plainIn bytes.Buffer
 	for _, call := range calls {
-		req, in := call.Spec.PipeBytes()
+		req, in := c36PipeBytes(call, call.Spec)
 		plainIn.Write(req)
 		plainIn.Write(in)
 	}
@@ -461,7 +762,7 @@ func runC36(c c36Case) (out lib.Outcome) {
 				[2]string{lib.KShmSegName, seg.Name()}, [2]string{lib.KShmSegSize, strconv.Itoa(size)})
 			out.Label("advertised")
 		}
-		req, in := spec.PipeBytes()
+		req, in := c36PipeBytes(call, spec)
 		engaged := call.Advertise
 		if call.ReqPtr && (attached || call.Advertise) {
 			if ss, derr := lib.SplitStreams(req); derr == nil && len(ss) == 1 && len(ss[0].Batches) == 1 && ss[0].Batches[0].Rec.NumCols() > 0 && ss[0].Batches[0].Rec.NumRows() > 0 {
@@ -541,6 +842,7 @@ func runC36(c c36Case) (out lib.Outcome) {
 	var received []recv
 	resolved := make([]lib.StreamM, len(res.Streams))
 	sawPointer, sawInline := false, false
+	pointerStream := map[int]bool{}
 	for si, st := range res.Streams {
 		ns := lib.StreamM{Schema: st.Schema, Start: st.Start, End: st.End}
 		for _, b := range st.Batches {
@@ -552,6 +854,7 @@ func runC36(c c36Case) (out lib.Outcome) {
 				continue
 			}
 			sawPointer = true
+			pointerStream[si] = true
 			offStr, _ := b.Get(lib.KShmOffset)
 			lenStr, _ := b.Get(lib.KShmLength)
 			off, e1 := strconv.ParseUint(offStr, 10, 64)
@@ -594,16 +897,41 @@ func runC36(c c36Case) (out lib.Outcome) {
 		out.Label("resp-inline")
 	}
 	out.NonTrivial = sawPointer && sawInline
+	// shape family: how many different output schemas reached the client
+	// through the segment on this connection
+	{
+		viaShm := map[string]bool{}
+		nshape, pos := 0, 0
+		for _, call := range calls {
+			n := call.Spec.ExpectedStreams()
+			if call.Shape != nil {
+				nshape++
+				for si := pos; si < pos+n; si++ {
+					if pointerStream[si] {
+						js, _ := json.Marshal(call.Shape.Shape)
+						viaShm[string(js)] = true
+					}
+				}
+			}
+			pos += n
+		}
+		if nshape > 0 {
+			out.Label("shape-family")
+		}
+		if len(viaShm) >= 2 {
+			out.Label("shape-variants-via-shm")
+		}
+	}
 
 	// ---- differential: same results, same handler-observed history ----
-	if d := lib.StreamsDiff(resolved, plain.Streams, lib.KShmSource); d != "" {
+	if d := c36SessionDiff(resolved, plain.Streams); d != "" {
 		// root cause: the first call whose response group differs, and how the
 		// client engaged shm on it
 		culprit, pos := -1, 0
 		for i, call := range calls {
 			n := call.Spec.ExpectedStreams()
 			if pos+n > len(resolved) || pos+n > len(plain.Streams) ||
-				lib.StreamsDiff(resolved[pos:pos+n], plain.Streams[pos:pos+n], lib.KShmSource) != "" {
+				c36SessionDiff(resolved[pos:pos+n], plain.Streams[pos:pos+n]) != "" {
 				culprit = i
 				break
 			}
@@ -852,11 +1180,14 @@ var propC36 = lib.Prop[c36Case]{
 	Rule: "session mode: histories of 1-8 lib.GenCall calls (+ sentinel) with unary results of 0-20 kB and stream turns padded 0-6 kB, served once plainly and once by a harness-played shm client " +
 		"(segment data area fitting none / some / all; advertisement on all / first / some requests; request and exchange-input batches sent as pointers written with my own encoder and allocator; " +
 		"VGI_RPC_SHM_MIN_BATCH_BYTES=256); oracle: resolved responses and handler call logs equal the plain run, request and consumed input pointers freed by the server, table empty after the client's releases. " +
+		"A third of the sessions also contain 2-4 calls of a producer whose output schema is chosen per call from a family (a base of an int column plus nothing / a list / a struct / a fixed-size-binary column, and variants differing from it in one or two attributes: " +
+		"name, nullability, integer width, field / schema / element metadata, element or child name, fixed width), inserted anywhere in the history; responses are compared in every schema attribute (metadata at any depth, child names, widths), not only names / types / values. " +
 		"rogue modes: 0-3 ordinary calls, then a request-level pointer or a pointer at input k of an exchange stream on a connection that never advertised, then a sentinel; oracle: that call ends in EXCEPTION, " +
 		"the handler never sees the pointer, sentinel served. Non-trivial: session with >=1 response pointer and >=1 inline data batch, or any rogue case.",
-	Gen:          genC36,
-	Run:          runC36,
-	Essential:    []string{"mode:session", "mode:rogue-request", "mode:rogue-input", "resp-pointer", "resp-inline", "req-pointer", "input-pointer", "seg:none", "seg:some", "seg:all", "client-inline-nofit"},
+	Gen: genC36,
+	Run: runC36,
+	Essential: []string{"mode:session", "mode:rogue-request", "mode:rogue-input", "resp-pointer", "resp-inline", "req-pointer", "input-pointer", "seg:none", "seg:some", "seg:all", "client-inline-nofit",
+		"shape-family", "shape-variants-via-shm"},
 	EssentialMin: 150,
 	Assumptions: []string{"the client pre-writes each stream call's input (documented 'writes before reading' client)",
 		"stream-input pointers are only sent on calls whose request engaged shm (advertised the segment or was itself a pointer); cancel batches are never pointers",
